@@ -27,7 +27,9 @@ RULE = ("one connection (plain or TLS) to a real http.Server with tymeout T in {
         "the window edge last_bytes_moved+T; tyme unit 1, 1/4, 1/32 or 8 s; a case is non-trivial when T > 0 and "
         "either a pass with traffic falls within one unit of the deadline of that moment or a send attempt with "
         "pending output is blocked or the Responder of a deferring app (X-Defer: 1, 2, 3, 5 or never finishing, half of the "
-        "non-persistent requests) is still in progress or the server is wound to a tymist at a different tyme while the connection is open; "
+        "non-persistent requests; the request's HTTP version and Connection header drawn from 12 non-persistent and 8 "
+        "persistent spellings: close / Close / 'TE, close' / 'close, TE' / 'keep-alive, close' / 'TE,close' / padded / "
+        "repeated lines / HTTP/1.0 with and without keep-alive) is still in progress or the server is wound to a tymist at a different tyme while the connection is open; "
         "with probability 0 / 0.08 / 0.25 per step the server is wound to a new Tymist at tyme 0, earlier, later or equal")
 MODELLED = ["virtual tyme as integers (the harness uses tymes that are integer multiples of a unit of 1, 1/4, 1/32 or 8 s, so "
             "float arithmetic is exact; other fractional tymes are not exercised)",
@@ -112,6 +114,25 @@ def directed():
         # client keeps talking while the app is not ready: that is traffic; wind while the app is not ready
         {"tls": False, "T": 3, "t0": 0, "passes": [P(0, "reqdefer", 1, NEVER), P(2, "rx", 1), P(2, "rx", 1), P(2, "idle"), P(1, "idle")]},
         {"tls": True, "T": 3, "t0": 9, "passes": [P(0, "reqdefer", 1, NEVER), [0, ["wind"], 0], P(2, "idle"), P(1, "idle")]},
+        # the ways a request can ask for a non-persistent connection (seeded change C12-9 witness: `TE, close`): each must
+        # still time out when it goes silent with the app not answering; and the ways to keep it alive: never times out
+        {"tls": False, "T": 3, "t0": 0, "hdrs": 1, "passes": [P(0, "reqdefer", 1, NEVER), P(2, "idle"), P(1, "idle"), P(1, "idle")]},
+        {"tls": False, "T": 3, "t0": 0, "hdrs": 3, "passes": [P(0, "reqdefer", 1, NEVER), P(2, "idle"), P(1, "idle"), P(1, "idle")]},
+        {"tls": False, "T": 3, "t0": 0, "hdrs": 5, "passes": [P(0, "reqdefer", 1, NEVER), P(2, "idle"), P(1, "idle"), P(1, "idle")]},
+        {"tls": False, "T": 3, "t0": 0, "hdrs": 7, "passes": [P(0, "reqdefer", 1, NEVER), P(2, "idle"), P(1, "idle"), P(1, "idle")]},
+        {"tls": False, "T": 3, "t0": 0, "hdrs": 9, "passes": [P(0, "reqdefer", 1, NEVER), P(2, "idle"), P(1, "idle"), P(1, "idle")]},
+        {"tls": False, "T": 3, "t0": 0, "hdrs": 11, "passes": [P(0, "reqdefer", 1, NEVER), P(2, "idle"), P(1, "idle"), P(1, "idle")]},
+        {"tls": False, "T": 3, "t0": 0, "hdrs": 13, "passes": [P(0, "reqdefer", 1, NEVER), P(2, "idle"), P(1, "idle"), P(1, "idle")]},
+        {"tls": False, "T": 3, "t0": 0, "hdrs": 15, "passes": [P(0, "reqdefer", 1, NEVER), P(2, "idle"), P(1, "idle"), P(1, "idle")]},
+        {"tls": False, "T": 3, "t0": 0, "hdrs": 17, "passes": [P(0, "reqdefer", 1, NEVER), P(2, "idle"), P(1, "idle"), P(1, "idle")]},
+        {"tls": False, "T": 3, "t0": 0, "hdrs": 19, "passes": [P(0, "reqdefer", 1, NEVER), P(2, "idle"), P(1, "idle"), P(1, "idle")]},
+        {"tls": False, "T": 3, "t0": 0, "hdrs": 21, "passes": [P(0, "reqdefer", 1, NEVER), P(2, "idle"), P(1, "idle"), P(1, "idle")]},
+        {"tls": False, "T": 3, "t0": 0, "hdrs": 23, "passes": [P(0, "reqdefer", 1, NEVER), P(2, "idle"), P(1, "idle"), P(1, "idle")]},
+        {"tls": False, "T": 2, "t0": 0, "hdrs": 2, "passes": [P(0, "rx", 1), P(1, "req", 2), P(3, "idle"), P(9, "req", 1), P(9, "idle")]},
+        {"tls": False, "T": 2, "t0": 0, "hdrs": 5, "passes": [P(0, "rx", 1), P(1, "req", 2), P(3, "idle"), P(9, "req", 1), P(9, "idle")]},
+        {"tls": False, "T": 2, "t0": 0, "hdrs": 9, "passes": [P(0, "rx", 1), P(1, "req", 2), P(3, "idle"), P(9, "req", 1), P(9, "idle")]},
+        {"tls": False, "T": 2, "t0": 0, "hdrs": 14, "passes": [P(0, "rx", 1), P(1, "req", 2), P(3, "idle"), P(9, "req", 1), P(9, "idle")]},
+        {"tls": False, "T": 2, "t0": 0, "hdrs": 21, "passes": [P(0, "rx", 1), P(1, "req", 2), P(3, "idle"), P(9, "req", 1), P(9, "idle")]},
         # client keeps sending while the response is stuck: that is traffic
         {"tls": False, "T": 3, "t0": 0, "passes": [P(0, "reqclose", 1, cap=0), P(2, "rx", 1, cap=0), P(2, "rx", 1, cap=0),
                                                     P(2, "idle", cap=0), P(1, "idle", cap=0)]},
@@ -183,35 +204,80 @@ def generate(rng, tier):
             if a[0] != "idle" or sent:
                 last = now
             passes.append([dt, a, c])
-        out.append({"tls": tls, "T": T, "t0": t0, "passes": passes, "unit": rng.choice([1.0, 1.0, 0.25, 0.03125, 8.0])})
+        out.append({"tls": tls, "T": T, "t0": t0, "passes": passes, "unit": rng.choice([1.0, 1.0, 0.25, 0.03125, 8.0]),
+                    "hdrs": rng.choice([0] + list(range(1, 61)))})
     return out
 
 
 # --------------------------------------------------------------------------- implementation driver
 
-class Feeder:
-    """Produces the client's byte stream: request line, header lines, blank line, again."""
+# How a request says whether the connection is to be kept: (http version, header lines).  By the documented rule
+# an HTTP/1.1 connection is persistent unless its Connection header has a `close` option (comma separated list,
+# case-insensitive, blanks around options ignored; of repeated Connection lines the parser keeps the last: merging
+# them is the header parser's business, so repeated lines here end with the deciding one); an HTTP/1.0 connection is
+# persistent only with a `keep-alive` option.
+CLOSE_VARIANTS = [
+    (b"1.1", [b"Connection: close"]),
+    (b"1.1", [b"Connection: Close"]),
+    (b"1.1", [b"Connection: TE, close"]),
+    (b"1.1", [b"Connection: close, TE"]),
+    (b"1.1", [b"Connection: keep-alive, close"]),
+    (b"1.1", [b"Connection: TE,close"]),
+    (b"1.1", [b"Connection:  CLOSE "]),
+    (b"1.1", [b"Connection: TE", b"Connection: close"]),
+    (b"1.1", [b"connection: Upgrade, Close , TE"]),
+    (b"1.0", []),
+    (b"1.0", [b"Connection: TE"]),
+    (b"1.0", [b"Connection: close"]),
+]
+KEEP_VARIANTS = [
+    (b"1.1", []),
+    (b"1.1", [b"Connection: keep-alive"]),
+    (b"1.1", [b"Connection: TE"]),
+    (b"1.1", [b"Connection: Keep-Alive, TE"]),
+    (b"1.1", [b"Connection: Upgrade"]),
+    (b"1.0", [b"Connection: keep-alive"]),
+    (b"1.0", [b"Connection: Keep-Alive"]),
+    (b"1.0", [b"Connection: TE, keep-alive"]),
+]
 
-    def __init__(self):
+
+class Feeder:
+    """Produces the client's byte stream: request line, header lines, blank line, again.  `hdrs` (0 = always
+    HTTP/1.1 with `Connection: close` / no Connection header) selects, per request, one of the variants above; the
+    HTTP version has to be fixed when the request line goes out, the header lines go out with the end of the head."""
+
+    def __init__(self, hdrs=0):
         self.in_head = False
         self.n = 0
+        self.hdrs = hdrs
+        self.reqno = 0
+        self.version = b"1.1"
+
+    def _start(self):
+        self.reqno += 1
+        self.in_head = True
+        self.version = b"1.0" if self.hdrs and (self.hdrs // 5 + self.reqno) % 3 == 0 else b"1.1"
+        return b"GET /idle/%d HTTP/%s\r\n" % (self.n, self.version)
 
     def partial(self):
         self.n += 1
         if not self.in_head:
-            self.in_head = True
-            return b"GET /idle/%d HTTP/1.1\r\n" % self.n
+            return self._start()
         return b"X-Pad-%d: abc\r\n" % self.n
 
     def finish(self, close=False, defer=0):
         self.n += 1
-        tail = b"Connection: close\r\n\r\n" if close else b"\r\n"
+        head = b"" if self.in_head else self._start() + b"Host: x\r\n"
+        if not self.hdrs:
+            lines = [b"Connection: close"] if close else []
+        else:
+            table = [v for v in (CLOSE_VARIANTS if close else KEEP_VARIANTS) if v[0] == self.version]
+            lines = table[(self.hdrs + self.reqno) % len(table)][1]
         if defer:
-            tail = b"X-Defer: %d\r\n" % defer + tail
-        if not self.in_head:
-            return b"GET /idle/%d HTTP/1.1\r\nHost: x\r\n" % self.n + tail
+            lines = [b"X-Defer: %d" % defer] + list(lines)
         self.in_head = False
-        return tail
+        return head + b"".join(l + b"\r\n" for l in lines) + b"\r\n"
 
 
 BODY = b"0123456789abcdef" * 6
@@ -260,7 +326,7 @@ def run_impl(case):
             raise AssertionError("reopen failed")
         servant = srv.servant
         ca = fk.ca_of(CA)
-        feeder, ix, core = Feeder(), None, None
+        feeder, ix, core = Feeder(int(case.get("hdrs", 0))), None, None
         sizes, total_before = [], 0
         for p in case["passes"]:
             dt, a, cap = _norm(p)
@@ -444,6 +510,7 @@ def shrink(case):
 def distribution(cases, obs):
     d = {"tls": sum(1 for c in cases if c["tls"]), "T<=0": sum(1 for c in cases if c["T"] <= 0),
          "closed": 0, "with_nonpersistent_response": 0, "with_blocked_send_while_pending": 0,
+         "with_header_variants": sum(1 for c in cases if c.get("hdrs")),
          "with_response_in_progress": sum(1 for o in obs if isinstance(o, dict) and any(q.get("inprog") for q in o.get("passes", []))),
          "with_wind": sum(1 for c in cases if any(_norm(p)[1][0] == "wind" for p in c["passes"]))}
     for c, o in zip(cases, obs):
